@@ -19,6 +19,7 @@ package datasource
 
 import (
 	"database/sql"
+	"math/big"
 	"reflect"
 	"strconv"
 )
@@ -116,6 +117,14 @@ func DeepEqual(x, y interface{}) bool {
 		typy = typy.Elem()
 	}
 
+	// two integers are compared as integers: through float64, integers beyond 2^53 that differ in their low
+	// bits are the same number, and a row somebody else changed that way would pass for untouched
+	if ix, ok := parseIntIfOk(typx); ok {
+		if iy, ok := parseIntIfOk(typy); ok {
+			return ix.Cmp(iy) == 0
+		}
+	}
+
 	flx, okx := parseFloatIfOk(typx)
 	fly, oky := parseFloatIfOk(typy)
 	if okx && oky {
@@ -168,6 +177,17 @@ func parseNumericText(val reflect.Value) (float64, bool) {
 	}
 	f, err := strconv.ParseFloat(text, 64)
 	return f, err == nil
+}
+
+// parseIntIfOk reads a value of an integer kind, signed or unsigned, whatever its width
+func parseIntIfOk(val reflect.Value) (*big.Int, bool) {
+	switch val.Kind() {
+	case reflect.Int, reflect.Int8, reflect.Int16, reflect.Int32, reflect.Int64:
+		return big.NewInt(val.Int()), true
+	case reflect.Uint, reflect.Uint8, reflect.Uint16, reflect.Uint32, reflect.Uint64, reflect.Uintptr:
+		return new(big.Int).SetUint64(val.Uint()), true
+	}
+	return nil, false
 }
 
 func parseFloatIfOk(val reflect.Value) (float64, bool) {
